@@ -707,6 +707,9 @@ func (r *runner) finalChecks() {
 	if r.has("reads-are-scoped") {
 		r.addV(checkReadsAreScoped(r)...)
 	}
+	if r.has("metadata-at-pit") {
+		r.addV(checkMetadataAtPIT(r)...)
+	}
 	if r.has("metadata-history-rows") {
 		r.addV(checkMetadataHistoryRows(r)...)
 	}
